@@ -1752,15 +1752,23 @@ def gen_reuse(rng):
             w = w[:3] + (0,) + w[4:]
         if ck == 't':
             w = (2000, 1, 1) + w[3:]
-        st = [kind, list(w)]
+        # operand position of $d (swap = $d is the RIGHT operand) and value vs general comparison
+        st = [kind, list(w), rng.random() < 0.5, rng.random() < 0.4]
+    shared = rng.random() < 0.5          # ONE Python value object goes through all the calls
     args = []
     for _ in range(rng.randint(3, 6)):
         v = tuple(gen_hist(rng, ck=ck, mode='var')['a'])
-        if rng.random() < 0.3:
+        if shared or rng.random() < 0.3:
             v = base                                     # the same value again after others
         args.append([list(v), rng.choice([-300, 0, 840, 330]) if kind == 'implicit' else rng.choice([None, None, -300, 0, 840, 330]), rng.choice(REUSE_PATHS),
                      rng.choice(HIST_TZ2)])
-    return {'op': 'reuse', 'cls': ck, 'step': st, 'args': args}
+    if shared and kind in ('cmp', 'diff', 'adjust1', 'implicit'):
+        # make the implicit timezone change from call to call
+        tzs_ = [-300, 180, 840, 0, 330, None]
+        rng.shuffle(tzs_)
+        for k_, a_ in enumerate(args):
+            a_[1] = tzs_[k_ % len(tzs_)] if not (kind == 'implicit' and tzs_[k_ % len(tzs_)] is None) else 60
+    return {'op': 'reuse', 'cls': ck, 'step': st, 'args': args, 'shared': shared}
 
 
 def compare_reuse(run: Run, cases: list, record=True) -> list:
@@ -1775,14 +1783,23 @@ def compare_reuse(run: Run, cases: list, record=True) -> list:
                 subs.append({'op': 'pyord', 'n': 1})       # placeholder line: the expectation is the context's own timezone
                 continue
             st_ = ['adjust', tz2] if c['step'][0] == 'adjustvar' else c['step']
-            subs.append(hist_subcases({'cls': c['cls'], 'a': v, 'itz': itz, 'steps': [st_]})[0])
+            sc = hist_subcases({'cls': c['cls'], 'a': v, 'itz': itz, 'steps': [st_[:2]]})[0]
+            if st_[0] in ('cmp', 'diff') and len(st_) > 2 and st_[2]:
+                sc = dict(sc, a=sc['b'], b=sc['a'])          # $d is the right operand
+            subs.append(sc)
     answers = iter(run.driver('C11', [line_of(sc) for sc in subs]))
     out = []
     for c in cases:
         ck, st = c['cls'], c['step']
         ver = '1.0' if ck == 't' else version_of(ck)
-        exprs = ['adjust-%s-to-timezone($d, $z)' % _tname(ck)] if st[0] == 'adjustvar' else ['implicit-timezone()'] if st[0] == 'implicit' \
-            else step_exprs(ck, st)
+        if st[0] in ('cmp', 'diff') and len(st) > 2:
+            other = ("xs:time('%s')" % time_lexical(tuple(st[1]))) if ck == 't' else xs_ctor(ck, tuple(st[1]))
+            lft, rgt = (other, '$d') if st[2] else ('$d', other)
+            ops_ = (('<', '<=', '=', '>', '>=') if st[3] else ('lt', 'le', 'eq', 'gt', 'ge')) if st[0] == 'cmp' else ('-',)
+            exprs = ['%s %s %s' % (lft, o, rgt) for o in ops_]
+        else:
+            exprs = ['adjust-%s-to-timezone($d, $z)' % _tname(ck)] if st[0] == 'adjustvar' else ['implicit-timezone()'] if st[0] == 'implicit' \
+                else step_exprs(ck, st)
         expr = exprs[0] if len(exprs) == 1 else '(' + ', '.join(exprs) + ')'
         parser = _PARSERS.get(('reuse', ver))
         if parser is None:
@@ -1796,6 +1813,7 @@ def compare_reuse(run: Run, cases: list, record=True) -> list:
             run.stats.case({'reuse': c}, nontrivial=True)
             run.stats.count('op:reuse')
             run.stats.count('reuse:step=' + st[0])
+        shared_obj = None
         for k, (v, itz, path, tz2) in enumerate(c['args']):
             ans = next(answers)
             model, spec, _ = parse_answer(ans)
@@ -1804,7 +1822,12 @@ def compare_reuse(run: Run, cases: list, record=True) -> list:
                 model = spec = str(itz * UM)
                 tags = []
             try:
-                obj = build_obj(ck, tuple(v))
+                if c.get('shared'):
+                    if shared_obj is None:
+                        shared_obj = build_obj(ck, tuple(v))
+                    obj = shared_obj             # the SAME Python object in every call
+                else:
+                    obj = build_obj(ck, tuple(v))
                 before = obj_state(obj)
                 from elementpath.datatypes import DayTimeDuration as _DTD
                 kw = {'variables': {'d': obj, 'z': [] if tz2 is None else _DTD(seconds=tz2 * 60)}, 'timezone': tzobj(itz)}
